@@ -10,6 +10,7 @@ import operator
 
 import numpy as np
 
+from . import ast as A
 from .ast import SCALAR_KINDS, VECTOR_KINDS, MATRIX_KINDS
 
 _OPS = {
@@ -42,8 +43,12 @@ def mk_raw(v, kind):
     raise ValueError(kind)
 
 
+# default of Builder(share=...): set per case by the checks that run "shared sub-expression" (DAG) builds
+SHARE = [False]
+
+
 class Builder:
-    def __init__(self, decls, fresh_leaves=False, buffers=None):
+    def __init__(self, decls, fresh_leaves=False, buffers=None, share=None):
         import optyx
 
         self.ox = optyx
@@ -55,6 +60,15 @@ class Builder:
         # rolling-window script refreshes its covariance buffer and builds a new model per period
         self.buffers = buffers
         self._nbuf = {}
+        # share: every distinct sub-recipe is built once and the object reused wherever the sub-recipe occurs again
+        # (`t = sin(a * b); e = t * t + t`): the expression is a DAG, as user code with named intermediates produces
+        self.share = SHARE[0] if share is None else share
+        self._memo = {}
+        if not self.share:
+            # no extra stack frame per recipe level on the ordinary path (recipes may be 500+ levels deep)
+            for nm in ("S", "V", "M"):
+                if getattr(type(self), nm) is getattr(Builder, nm):
+                    setattr(self, nm, getattr(self, "_" + nm))
         self.env = {}
         self.scalars = {}  # scalar variable name -> Variable object
         self.params = {}  # scalar parameter name -> Parameter object
@@ -140,7 +154,24 @@ class Builder:
         return out
 
     # ------------------------------------------------------------------
+    def _shared(self, kind, f, n):
+        if not self.share or n[0] in ("raw", "const", "list", "tuple", "list2"):
+            return f(n)
+        key = kind + A.canon(n)
+        if key not in self._memo:
+            self._memo[key] = f(n)
+        return self._memo[key]
+
     def S(self, n):
+        return self._shared("S", self._S, n)
+
+    def V(self, n):
+        return self._shared("V", self._V, n)
+
+    def M(self, n):
+        return self._shared("M", self._M, n)
+
+    def _S(self, n):
         ox = self.ox
         k = n[0]
         if k == "var":
@@ -201,7 +232,7 @@ class Builder:
             return ox.trace(m)
         raise ValueError(f"scalar node {k}")
 
-    def V(self, n):
+    def _V(self, n):
         ox = self.ox
         k = n[0]
         if k == "vec":
@@ -253,7 +284,7 @@ class Builder:
             return VectorExpression([self.S(e) for e in n[1]])
         raise ValueError(f"vector node {k}")
 
-    def M(self, n):
+    def _M(self, n):
         ox = self.ox
         k = n[0]
         if k == "mat":
